@@ -80,6 +80,7 @@ class Ctx:
         self.ex = ex
         self.interp = interp
         self.obls = []  # (clause, hyps, goal, kind)
+        self.split_hints = []  # (clause substring, Bool term): proof-by-cases hints for the solver
         self.covers_hit = set()
         self.ghost = {}
 
@@ -104,6 +105,10 @@ class Ctx:
 
     def cover(self, name):
         self.covers_hit.add(name)
+
+    def split_hint(self, clause_part, term):
+        """ask for obligations whose clause name contains `clause_part` to be proved by cases on `term` / Not(term)"""
+        self.split_hints.append((clause_part, core.as_bool_term(term)))
 
     def lemma(self, name, nvars, stmt, sort="real"):
         """A helper lemma  forall v1..vn. stmt(v)  is proved once as its own obligation (no hypotheses, fresh
@@ -204,6 +209,8 @@ class FunctionResult:
             "status": self.status,
             "time_s": round(self.time_s, 3),
         }
+        slow = sorted(self.obligations, key=lambda o: -(o.time_s or 0))[:3]
+        d["slowest_obligations"] = [{"clause": o.clause, "time_s": round(o.time_s or 0, 2), "backend": o.backend} for o in slow if (o.time_s or 0) >= 1.0]
         if self.src:
             d.update(self.src)
         if self.unsupported:
@@ -326,11 +333,21 @@ class Runner:
                         cname = str(case) if not isinstance(case, str) else case
                         oid = f"{con.prop}/{con.function}/{cname}/{clause}"
                         o = Obligation(oid, con.function, f"{cname}#p{pi}", clause, hyps, goal, kind=kind)
+                        sp = [t for (part, t) in ctx.split_hints if part in clause]
+                        if sp:
+                            o.split = sp
                         res.obligations.append(o)
         except core.PathLimit as e:
             res.unsupported.append(str(e))
         except Exception as e:  # engine bug: reported as checker error, never as a violation
             res.error = f"{type(e).__name__}: {e}\n" + traceback.format_exc()[-1500:]
+        dump = os.environ.get("MDVC_DUMP")
+        if dump:  # development aid: write the SMT-LIB text of matching obligations
+            os.makedirs("/dev/shm/mdvc-dump", exist_ok=True)
+            for k, o in enumerate(res.obligations):
+                if dump in o.clause:
+                    with open(f"/dev/shm/mdvc-dump/{con.function}-{k}.smt2", "w") as fh:
+                        fh.write(f"; {o.oid} [{o.path_class}]\n" + o.smt2())
         # discharge (in parallel across forked workers when there are many obligations)
         self.discharge_all(res.obligations)
         for o in res.obligations:
